@@ -189,6 +189,10 @@ def attr_commit_builder(g, E, do, length):
             {"op": "modifyAttribute", "uid": O, "attr": {"name": "Object Group", "index": 5, "value": tx("grpZ")}, "current": None, "new": None},
             {"op": "modifyAttribute", "uid": O, "attr": {"name": "Application Specific Information", "index": 1,
                                                           "value": {"k": "appinfo", "ns": "ssl", "d": "www"}}, "current": None, "new": None},
+            {"op": "modifyAttribute", "uid": O, "attr": {"name": "Application Specific Information", "index": 0,
+                                                          "value": {"k": "appinfo", "ns": "ssl", "d": ""}}, "current": None, "new": None},
+            {"op": "modifyAttribute", "uid": O, "attr": {"name": "Application Specific Information", "index": 1,
+                                                          "value": {"k": "appinfo", "ns": "", "d": "x"}}, "current": None, "new": None},
             {"op": "modifyAttribute", "uid": O, "attr": {"name": "Cryptographic Usage Mask", "index": None, "value": {"k": "int", "v": 3}},
              "current": None, "new": None},
             {"op": "modifyAttribute", "uid": O, "attr": {"name": "State", "index": None, "value": {"k": "enum", "v": 2}}, "current": None, "new": None},
